@@ -4,4 +4,12 @@ import MJ.Props.C13
 #print axioms MJ.C13.levels_add_up
 #print axioms MJ.C13.deterministic
 #print axioms MJ.C13.nested_shares_tracker
+#print axioms MJ.C13.fuel_does_not_steer
+#print axioms MJ.C13.machine_threshold_exact
+#print axioms MJ.C13.call_tree_flattens
+#print axioms MJ.C13.nested_threshold_exact
+#print axioms MJ.C13.out_of_fuel_is_sticky
+#print axioms MJ.C13.zero_budget_refuses
+#print axioms MJ.C13.uses_as_modelled
+#print axioms MJ.C13.track_before_dispatch
 #print axioms MJ.C13.legacy_defect
